@@ -123,9 +123,9 @@ func specPrec(s *corpus.Spec) (tok map[string]int, assoc map[string]string, rule
 
 func c03Corpus(c *Ctx) []*corpus.Spec {
 	specs := corpus.Fixed()
-	n := 6
+	n := 30
 	if c.Thorough() {
-		n = 40
+		n = 120
 	}
 	specs = append(specs, corpus.Random(c.Seed, n)...)
 	if c.Thorough() {
